@@ -66,11 +66,11 @@ Next ==
         /\ UNCHANGED <<nextPict, nextSrc>>
      \/ /\ ~GridOnly /\ \E p \in {x \in Picts(oss) : ~IsOp(oss, x)}, n0 \in (IF Structural THEN {1} ELSE {1, 2}) : Step(CN(p, nextSrc, n0))
         /\ nextSrc' = nextSrc + 1 /\ UNCHANGED nextPict
-     \/ /\ \E p \in Picts(oss), k \in {"addBase", "removeBase", "removeFirst", "text", "userTerm", "userPair"} : (k = "removeFirst" => IsLabelled) /\ (k = "userPair" => Preset \in {"chain", "diamond"}) /\
+     \/ /\ \E p \in Picts(oss), k \in {"addBase", "removeBase", "removeFirst", "text", "userTerm", "userPair"} : (k = "removeFirst" => IsLabelled) /\ (k = "userPair" => (Preset = "chain" \/ (Preset = "diamond" /\ MaxLen <= 3))) /\
              ~GridOnly /\ CanEdit(oss, p, k) /\ (k = "text" => Preset \in {"empty", "chain"} /\ (Structural \/ p \in {1, 4})) /\ Step([Op("Edit") EXCEPT !.p = p, !.kind = k])
         /\ UNCHANGED <<nextPict, nextSrc>>
      \/ /\ \E p \in Picts(oss) : ~GridOnly /\ oss.hand[p].linked /\ Step([Op("Close") EXCEPT !.p = p]) /\ UNCHANGED <<nextPict, nextSrc>>
-     \/ /\ \E p \in Picts(oss) : ~GridOnly /\ oss.hand[p].linked /\ ~DataOf(oss, p).saved /\ Step([Op("Drop") EXCEPT !.p = p]) /\ UNCHANGED <<nextPict, nextSrc>>
+     \/ /\ \E p \in Picts(oss) : ~GridOnly /\ (MaxLen <= 3 \/ Preset \in {"chain", "stale"}) /\ oss.hand[p].linked /\ ~DataOf(oss, p).saved /\ Step([Op("Drop") EXCEPT !.p = p]) /\ UNCHANGED <<nextPict, nextSrc>>
      \/ /\ \E p \in Picts(oss) : ~GridOnly /\ HasData(oss, p) /\ ~oss.hand[p].linked /\ Step([Op("Open") EXCEPT !.p = p]) /\ UNCHANGED <<nextPict, nextSrc>>
      \/ /\ \E p \in Picts(oss) : ~GridOnly /\ HasData(oss, p) /\ Step([Op("Save") EXCEPT !.p = p]) /\ UNCHANGED <<nextPict, nextSrc>>
      \/ /\ \E p \in DOMAIN oss.oper, t \in {<<"merge", -1>>, <<"synt", 0>>, <<"synt", 1>>, <<"synt", 2>>, <<"synt", -1>>, <<"merge", 0>>} :
